@@ -97,3 +97,63 @@ Definition varstore_subset (store : list (list row)) (used : list Z) (retain : b
 Fixpoint lookupZ (m : list (Z * Z)) (k : Z) : option Z :=
   match m with [] => None | (a, b) :: r => if a =? k then Some b else lookupZ r k end.
 Definition get_idx (store : list (list row)) (v : Z) : row := get_row (nth (Z.to_nat (vmajor v)) store []) (vminor v).
+
+(* ---- the whole closure: ligature and (chain) contextual lookups with nested lookup calls (subset/__init__.py:553-605, 1225-1330,
+   1548-1567, 1947-1974). The memoisation of Lookup.closure_glyphs is semantically invisible and is not modelled. *)
+Record crule := mkCR { cr_first : list glyph;          (* glyphs admitted at input position 0 (coverage glyph / class members / coverage) *)
+                       cr_need : list (list glyph);    (* every other backtrack, input and lookahead position: must meet the glyph set *)
+                       cr_inputs : list (list glyph);  (* input positions 1.. *)
+                       cr_recs : list (nat * nat) }.   (* (SequenceIndex, LookupListIndex) in record order *)
+Inductive sub :=
+| SMap (non1to1 : bool) (m : subst)                      (* Single/Alternate (false), Multiple (true) *)
+| SLig (l : list (glyph * (list glyph * glyph)))         (* first component, other components, ligature *)
+| SCtx (rules : list crule).
+Definition lookup := list sub.
+
+Definition inter (a b : list glyph) : list glyph := filter (fun g => memg g b) a.
+Definition is_nil {A} (l : list A) : bool := match l with [] => true | _ => false end.
+Definition non1 (lk : lookup) : bool :=
+  existsb (fun st => match st with SMap b _ => b | SLig _ => true | SCtx _ => true end) lk.
+Definition mem_nat (x : nat) (l : list nat) : bool := existsb (Nat.eqb x) l.
+
+Definition apply_rule (rec : nat -> option (list glyph) -> list glyph -> list glyph) (lks : list lookup)
+                      (cur0 s : list glyph) (r : crule) : list glyph :=
+  let c0 := inter cur0 (cr_first r) in
+  if is_nil c0 then s
+  else if negb (forallb (fun need => negb (is_nil (inter need s))) (cr_need r)) then s
+  else
+    let n_in := length (cr_inputs r) in
+    snd (fold_left (fun (st : list nat * list glyph) (rc : nat * nat) =>
+           let '(chaos, s1) := st in let '(seqi, li) := rc in
+           let pos := if mem_nat seqi chaos then None
+                      else Some (if Nat.eqb seqi 0 then c0 else inter (nth (seqi - 1) (cr_inputs r) []) s1) in
+           let chaos' := seqi :: (if non1 (nth li lks []) then seq seqi (n_in + 2 - seqi) ++ chaos else chaos) in
+           (chaos', rec li pos s1)) (cr_recs r) ([], s)).
+
+Definition closure_sub (rec : nat -> option (list glyph) -> list glyph -> list glyph) (lks : list lookup)
+                       (cur0 : list glyph) (s : list glyph) (st : sub) : list glyph :=
+  match st with
+  | SMap _ m => add_new s (flat_map (fun kv : glyph * list glyph => if memg (fst kv) cur0 then snd kv else []) m)
+  | SLig l => add_new s (flat_map (fun e : glyph * (list glyph * glyph) =>
+                 if memg (fst e) cur0 && forallb (fun c => memg c s) (fst (snd e)) then [snd (snd e)] else []) l)
+  | SCtx rules =>
+      (* the subtable applies only to the part of cur inside its coverage = the union of the rules' first sets; folded into c0 *)
+      fold_left (fun s1 r => apply_rule rec lks cur0 s1 r) rules s
+  end.
+
+Fixpoint closure_lookup (fuel : nat) (lks : list lookup) (idx : nat) (cur : option (list glyph)) (s : list glyph) : list glyph :=
+  match fuel with
+  | O => s
+  | S f =>
+      let cur0 := match cur with Some c => c | None => s end in
+      fold_left (fun s1 st => closure_sub (closure_lookup f lks) lks cur0 s1 st) (nth idx lks []) s
+  end.
+
+Definition gsub_round (depth : nat) (lks : list lookup) (order : list nat) (s : list glyph) : list glyph :=
+  fold_left (fun s1 i => closure_lookup depth lks i None s1) order s.
+Fixpoint closure_gsub (fuel depth : nat) (lks : list lookup) (order : list nat) (s : list glyph) : option (list glyph) :=
+  match fuel with
+  | O => None
+  | S f => let s' := gsub_round depth lks order s in
+           if Nat.eqb (length s') (length s) then Some s else closure_gsub f depth lks order s'
+  end.
